@@ -223,6 +223,7 @@ func (m *MonAgreement) Finish(nw *Network) {}
 // ---------------------------------------------------------------------------
 
 type finState struct {
+	resets    int
 	processed int
 	lastIndex int
 	lastRR    int
@@ -292,6 +293,13 @@ func (m *MonFinality) AfterStep(nw *Network) {
 		if s == nil {
 			s = &finState{lastIndex: -1, lastRR: -1, sigs: map[int]map[string]string{}, bodies: map[int]string{}}
 			m.st[app] = s
+		}
+		if s.resets != n.ResetEpochs {
+			// the node reset its store from a fast-sync anchor: what it held before is
+			// deliberately gone; bookkeeping of stored bodies starts again
+			s.resets = n.ResetEpochs
+			s.bodies = map[int]string{}
+			s.sigs = map[int]map[string]string{}
 		}
 		for i := s.processed; i < len(app.Delivered); i++ {
 			d := app.Delivered[i]
